@@ -323,10 +323,31 @@ def gen_project(rng, mode="plain", syntaxes=None, allow_mixed=True, max_files=4,
         gpaths = rng.sample(["top.ver", "src/pkg/sub/deep/x.ver", ".hidden/y.ver", "src/.dot.ver", "src/one.ver"], rng.randint(2, 4))
         gpats = gen_search_patterns(rng, tree, vpattern, pep_ok, rng.choice([1, 2]), marker, False, ini)
         marker += len(gpats)
+        group = []
         for gp_ in gpaths:
             gf = gen_file(rng, gp_, gpats, mode, rng.choice(["lf", "crlf"]))
             gf["glob_group"] = True
+            gf["group_patterns"] = [p["raw"] for p in gpats]
             files.append(gf)
+            group.append(gf)
+        if rng.random() < 0.4:
+            # one file of the group is named again in an entry of its own with a further pattern; its siblings hold the very
+            # same text, which no pattern configured for *them* matches and which therefore must stay as it is
+            m = "@k%d" % marker
+            marker += 1
+            chosen = rng.choice(group)
+            raw = m + " extra {version}"
+            chosen["extra_entry"] = [raw]
+            idx = len(chosen["patterns"])
+            chosen["patterns"] = chosen["patterns"] + [raw]
+            for gf in group:
+                sep = {"lf": "\n", "crlf": "\r\n"}[gf["regime"]]
+                if gf["lines"] and gf["lines"][-1]["end"] == "":
+                    gf["lines"][-1]["end"] = sep
+                if gf is chosen:
+                    gf["lines"].append({"segs": [m + " extra ", {"slot": "{version}", "pat": idx}], "end": sep})
+                else:
+                    gf["lines"].append({"segs": [m + " extra " + vtext + " (sibling)"], "end": sep})
     # README-style calendar patterns next to a version pattern that carries no year ("Copyright (c) 2018-YYYY")
     clock_slots = False
     if clock_patterns and not legacy and not (set(rp.fields_of(tree)) & {"year_y", "year_g"}) and files and rng.random() < 0.4:
@@ -385,9 +406,11 @@ def gen_project(rng, mode="plain", syntaxes=None, allow_mixed=True, max_files=4,
     # config entries: explicit path, a glob that matches exactly this file, or the patterns split over two entries
     entries = []
     if any(f.get("glob_group") for f in files):
-        entries.append(["**/*.ver", [f for f in files if f.get("glob_group")][0]["patterns"]])
+        entries.append(["**/*.ver", [f for f in files if f.get("glob_group")][0]["group_patterns"]])
     for f in files:
         if f.get("glob_group"):
+            if f.get("extra_entry"):
+                entries.append([f["path"], f["extra_entry"]])
             continue
         path = f["path"]
         r = rng.random()
@@ -447,6 +470,17 @@ def gen_project(rng, mode="plain", syntaxes=None, allow_mixed=True, max_files=4,
         style = {"toml_literal": rng.random() < 0.5}
         if syntax == "pyproject.toml" and rng.random() < 0.7:
             style["preamble"] = '[project]\nname = "demo"\n'
+    if syntax in ("setup.cfg", "pyproject.toml") and rng.random() < 0.15:
+        # a file shared with bumpversion / bump2version: their section comes first and has a current_version line of its own
+        # (quoted differently from bumpver's line, so that no configured pattern matches it): it is not bumpver's to change
+        if ini:
+            own_q = style["version_quote"]
+            fq = "" if own_q == '"' else '"'
+            foreign = "[bumpversion]\ncurrent_version = %s%s%s\ncommit = True\n" % (fq, vtext, fq)
+        else:
+            foreign = "[tool.bumpversion]\ncurrent_version = '%s'\n" % vtext
+        style["preamble"] = style.get("preamble", "") + foreign
+        style["foreign_section"] = True
     cfg = {"current_version": vtext, "version_pattern": vpattern, "file_patterns": entries}
     for k, v in settings.items():
         if v or rng.random() < 0.5:
